@@ -37,6 +37,7 @@ type Thread struct {
 	Goexit  bool
 	Steps   int
 	VC      []uint32 // vector clock (HB monitor)
+	Pending any      // value of the channel send the thread is parked in front of (nil otherwise)
 }
 
 type abortT struct{}
